@@ -13,7 +13,10 @@ package main
 
 import (
 	"bytes"
+	"crypto/ecdsa"
 	"crypto/ed25519"
+	"crypto/elliptic"
+	"encoding/hex"
 	"errors"
 	"fmt"
 	"os"
@@ -47,7 +50,36 @@ type engine struct {
 	rng  *lib.Rng
 	m    *lib.Model
 	rep  *lib.Report
-	keys []*key // 0..3 recipients pool, 4..5 unrelated
+	keys []*key // 0..3 recipients pool, 4..5 unrelated, 6 a private key of an unsupported type
+	// badPub is a public key of a type the envelope code does not support (ECDSA P-256, verify-only adapter)
+	badPub crypto.PubKey
+	tcN    int // rotates the key-subset class of the C18 tamper cases
+}
+
+// fakePriv is a crypto.PrivKey of an unsupported type: its public key cannot be marshalled to PEM,
+// so matchPrivKeys must skip it.
+type fakePriv struct{ pub crypto.PubKey }
+
+func (f fakePriv) Equals(o crypto.Key) bool    { _, ok := o.(fakePriv); return ok }
+func (f fakePriv) Raw() ([]byte, error)        { return nil, crypto.ErrBadKeyType }
+func (f fakePriv) Type() crypto.KeyType        { return crypto.KeyType(3) }
+func (f fakePriv) Sign([]byte) ([]byte, error) { return nil, crypto.ErrBadKeyType }
+func (f fakePriv) GetPublic() crypto.PubKey    { return f.pub }
+
+// unsupportedPub: the P-256 base point as an ECDSA public key behind bifrost's verify-only adapter.
+func unsupportedPub() crypto.PubKey {
+	p := elliptic.P256().Params()
+	return crypto.ECDSAPublicKeyFromStdKey(&ecdsa.PublicKey{Curve: elliptic.P256(), X: p.Gx, Y: p.Gy})
+}
+
+// setupKeys draws the key pool from the engine's PRNG.
+func (e *engine) setupKeys() {
+	for i := 0; i < 6; i++ {
+		e.keys = append(e.keys, e.newKey())
+	}
+	e.badPub = unsupportedPub()
+	// the model sees this key under a PEM no envelope keypair can carry
+	e.keys = append(e.keys, &key{priv: fakePriv{e.badPub}, pub: e.badPub, pem: bytes.Repeat([]byte{0xfe}, 64)})
 }
 
 type rndReader struct{ r *lib.Rng }
@@ -82,6 +114,10 @@ type cfg struct {
 	t      uint32
 	total  uint32
 	grants []gcfg
+	id     string // EnvelopeId of the configuration ("" = derived from secret and context)
+	nilCfg bool   // a nil *EnvelopeConfig is passed
+	empty  bool   // the payload is empty
+	bad    []int  // recipient indexes whose public key is of an unsupported type
 }
 
 func (c cfg) args() string {
@@ -101,11 +137,65 @@ func (c cfg) args() string {
 	if len(gs) > 0 {
 		g = strings.Join(gs, ";")
 	}
-	return fmt.Sprintf("nkeys=%d t=%d total=%d grants=%s", c.nkeys, c.t, c.total, g)
+	s := fmt.Sprintf("nkeys=%d t=%d total=%d grants=%s", c.nkeys, c.t, c.total, g)
+	if c.id != "" {
+		s += " id=" + lib.Hex([]byte(c.id))
+	}
+	if c.nilCfg {
+		s += " nil=1"
+	}
+	if c.empty {
+		s += " plen=0"
+	}
+	if len(c.bad) > 0 {
+		s += " badkeys=" + natList(c.bad)
+	}
+	return s
+}
+
+// parseCfgArgs is the inverse of cfg.args (used by the child process of the share-sum wrap cases).
+func parseCfgArgs(s string) cfg {
+	c := cfg{}
+	atoi := func(v string) int {
+		n, err := strconv.ParseUint(v, 10, 64)
+		if err != nil {
+			panic("bad cfg args: " + s)
+		}
+		return int(n)
+	}
+	c.nkeys = atoi(lib.KV(s, "nkeys"))
+	c.t = uint32(atoi(lib.KV(s, "t")))
+	c.total = uint32(atoi(lib.KV(s, "total")))
+	if g := lib.KV(s, "grants"); g != "_" {
+		for _, gs := range strings.Split(g, ";") {
+			f := strings.Split(gs, ":")
+			gc := gcfg{sc: uint32(atoi(f[0]))}
+			if f[1] != "_" {
+				for _, k := range strings.Split(f[1], ".") {
+					gc.idx = append(gc.idx, uint32(atoi(k)))
+				}
+			}
+			c.grants = append(c.grants, gc)
+		}
+	}
+	if v := lib.KV(s, "id"); v != "" {
+		c.id = string(lib.Unhex(v))
+	}
+	c.nilCfg = lib.KV(s, "nil") == "1"
+	c.empty = lib.KV(s, "plen") == "0"
+	if v := lib.KV(s, "badkeys"); v != "" && v != "_" {
+		for _, k := range strings.Split(v, ",") {
+			c.bad = append(c.bad, atoi(k))
+		}
+	}
+	return c
 }
 
 func (c cfg) proto() *envelope.EnvelopeConfig {
-	ec := &envelope.EnvelopeConfig{Threshold: c.t, TotalShares: c.total}
+	if c.nilCfg {
+		return nil
+	}
+	ec := &envelope.EnvelopeConfig{EnvelopeId: c.id, Threshold: c.t, TotalShares: c.total}
 	for _, g := range c.grants {
 		ec.GrantConfigs = append(ec.GrantConfigs, &envelope.EnvelopeGrantConfig{ShareCount: g.sc, KeypairIndexes: g.idx})
 	}
@@ -133,25 +223,87 @@ func (e *engine) randCfg() cfg {
 		}
 		c.grants = append(c.grants, g)
 	}
+	// the EnvelopeId field: mostly empty (derived id), otherwise set
+	if e.rng.Intn(3) == 0 {
+		c.id = e.randID()
+	}
+	// larger share counts (beyond the 0-2 of the stated bound), with thresholds to match
+	if e.rng.Intn(8) == 0 {
+		sum := 0
+		for i := range c.grants {
+			c.grants[i].sc = uint32([]int{3, 4, 5, 7, 12, 33, 64}[e.rng.Intn(7)])
+			if e.rng.Intn(5) == 0 {
+				c.grants[i].sc = uint32(e.rng.Intn(3))
+			}
+			sum += int(c.grants[i].sc)
+		}
+		if e.rng.Intn(2) == 0 {
+			c.t = uint32(e.rng.Intn(sum + 2))
+		}
+		if c.total != 0 && e.rng.Intn(2) == 0 {
+			c.total = uint32(e.rng.Intn(sum + 3))
+		}
+	}
 	return c
+}
+
+// randID draws a value for the EnvelopeId field of a configuration.
+func (e *engine) randID() string {
+	switch e.rng.Intn(6) {
+	case 0:
+		return "env-" + strconv.Itoa(e.rng.Intn(1000))
+	case 1:
+		return hex.EncodeToString(e.rng.Bytes(16)) // looks like a derived id
+	case 2:
+		return string(e.rng.Bytes(1 + e.rng.Intn(40))) // arbitrary bytes
+	case 3:
+		return strings.Repeat("long id ", 10+e.rng.Intn(40))
+	case 4:
+		return []string{"0", " ", "a:b 3:c", "12:x"}[e.rng.Intn(4)]
+	}
+	return "mailbox/" + hex.EncodeToString(e.rng.Bytes(4))
+}
+
+// structural turns a configuration into one that BuildEnvelope must refuse for a structural
+// reason: empty payload, nil configuration, a recipient key of an unsupported type.
+func (e *engine) structural(c cfg) (cfg, string) {
+	switch e.rng.Intn(3) {
+	case 0:
+		c.empty = true
+		return c, "empty-payload"
+	case 1:
+		c.nilCfg = true
+		return c, "nil-config"
+	}
+	c.bad = []int{e.rng.Intn(c.nkeys)}
+	return c, "unsupported-key"
 }
 
 // ---- the property, stated independently of the model (monitor side) ----
 
 // specPlaced: shares are numbered 1..total (total = override if > 0, else the sum of the share
 // counts, a count of 0 meaning 1) and handed to the grants in order until they run out.
-func specPlaced(c cfg) [][]int {
-	sum := 0
+// The counts are uint32 fields and so is their sum (the type of the TotalShares field it
+// defaults): a sum of 2^32 or more wraps.
+func specTotal(c cfg) int {
+	var sum uint32
 	for _, g := range c.grants {
 		if g.sc == 0 {
 			sum++
 		} else {
-			sum += int(g.sc)
+			sum += g.sc
 		}
 	}
-	total := sum
 	if c.total > 0 {
-		total = int(c.total)
+		return int(c.total)
+	}
+	return int(sum)
+}
+
+func specPlaced(c cfg) [][]int {
+	total := specTotal(c)
+	if total > 1<<20 {
+		panic("harness: configuration with more than 2^20 shares generated")
 	}
 	next := 1
 	out := make([][]int, len(c.grants))
@@ -257,6 +409,13 @@ func unlockImpl(ctx string, env *envelope.Envelope, privs []crypto.PrivKey, orig
 	return lib.Recover(func() string {
 		p, r, err := envelope.UnlockEnvelope(ctx, env, privs)
 		if err != nil {
+			// documented: (nil, nil, err). An error that comes with a payload or a result is its own outcome.
+			if p != nil {
+				return "err-with-payload " + unlockErrClass(err) + " payload=" + lib.Hex(p)
+			}
+			if r != nil {
+				return fmt.Sprintf("err-with-result %s success=%v %s", unlockErrClass(err), r.GetSuccess(), resultStr(r))
+			}
 			return unlockErrClass(err)
 		}
 		if !r.GetSuccess() {
@@ -273,6 +432,18 @@ func unlockImpl(ctx string, env *envelope.Envelope, privs []crypto.PrivKey, orig
 		}
 		return "opened payload=" + lib.Hex(p) + " " + resultStr(r)
 	})
+}
+
+// errResultMon: "fails" means no payload and no result are handed out (UnlockEnvelope documents
+// (nil, nil, err)); a caller that looks at the payload first must never see one next to an error.
+func errResultMon(impl, gen string) string {
+	if strings.HasPrefix(impl, "err-with-payload") {
+		return "UnlockEnvelope returned an error together with a payload (" + gen + "): " + lib.Trunc(impl)
+	}
+	if strings.HasPrefix(impl, "err-with-result") {
+		return "UnlockEnvelope returned an error together with a result (" + gen + "): " + lib.Trunc(impl)
+	}
+	return ""
 }
 
 func (e *engine) privs(ks []*key) []crypto.PrivKey {
@@ -364,10 +535,16 @@ func outcomeClass(s string) string {
 // wireCase: model (with oracles) vs implementation on wire bytes, plus the C18 monitor
 // (never a panic, never a payload other than orig; mustCtxMismatch: rejected as such).
 func (e *engine) wireCase(wire []byte, ctx string, offered []*key, orig []byte, gen string, key string, mustCtxMismatch bool, mustOpen bool) string {
+	return e.wireCaseX(wire, ctx, offered, orig, gen, key, mustCtxMismatch, mustOpen, "")
+}
+
+// wireCaseX: mustNotOpen != "" states why this envelope / key set must not open at all.
+func (e *engine) wireCaseX(wire []byte, ctx string, offered []*key, orig []byte, gen string, key string, mustCtxMismatch bool, mustOpen bool, mustNotOpen string) string {
 	op, model := e.modelUnlockWire(wire, ctx, offered)
 	impl := implUnlockWire(wire, ctx, e.privs(offered))
-	mon := ""
+	mon := errResultMon(impl, gen)
 	switch {
+	case mon != "":
 	case strings.HasPrefix(impl, "panic"):
 		mon = "UnlockEnvelope panics (" + gen + "): " + impl
 	case strings.HasPrefix(impl, "opened"):
@@ -385,6 +562,9 @@ func (e *engine) wireCase(wire []byte, ctx string, offered []*key, orig []byte, 
 	}
 	if mustOpen && mon == "" && !strings.HasPrefix(impl, "opened") {
 		mon = "honest envelope not opened by sufficient keys (" + gen + "): " + impl
+	}
+	if mustNotOpen != "" && mon == "" && strings.HasPrefix(impl, "opened") {
+		mon = "UnlockEnvelope opened an envelope that must stay locked: " + mustNotOpen + " (" + gen + ")"
 	}
 	e.rep.Compare(op, model, impl, "wire."+outcomeClass(model), key, mon)
 	return impl
@@ -407,6 +587,9 @@ func (e *engine) buildReal(c cfg, ctx string, payload []byte) *built {
 	pubs := make([]crypto.PubKey, c.nkeys)
 	for i := range pubs {
 		pubs[i] = e.keys[i].pub
+	}
+	for _, i := range c.bad {
+		pubs[i] = e.badPub
 	}
 	if p := lib.Recover(func() string {
 		b.env, b.err = envelope.BuildEnvelope(rndReader{e.rng}, ctx, payload, pubs, c.proto())
@@ -463,16 +646,127 @@ func (e *engine) observedPlacement(b *built) string {
 	return strings.Join(out, ";")
 }
 
-// planCase: accept/reject + placement, model vs BuildEnvelope; C17 monitor.
-func (e *engine) planCase(c cfg, gen string) *built {
-	ctx := []string{"ctx A", "", "bifrost/envelope test v1", "π ✓", "a b 3:c"}[e.rng.Intn(5)]
-	payload := e.rng.Bytes(1 + e.rng.Intn(40))
-	op := "envelope.plan " + c.args()
-	model := e.m.Query(op)
+// recoverSecret reconstructs the sealed secret scalar the way a holder of all recipient keys can:
+// the shares of every decryptable grant, CIRCL's Recover; it is the secret iff the key derived
+// from it (blake3.DeriveKey, called directly) opens the payload ciphertext (chacha20poly1305, directly).
+func (e *engine) recoverSecret(b *built) ([]byte, bool) {
+	g := group.Ristretto255
+	var shares []secretsharing.Share
+	seen := map[string]bool{}
+	for gi, gr := range b.env.GetGrants() {
+		if len(gr.GetKeypairIndexes()) == 0 || len(gr.GetCiphertexts()) == 0 {
+			continue
+		}
+		k := b.keys[gr.GetKeypairIndexes()[0]]
+		d, err := peer.DecryptWithPrivKey(k.priv, envelope.VerifBuildGrantEncContext(b.env.GetEnvelopeId(), b.ctx, gi), gr.GetCiphertexts()[0])
+		if err != nil {
+			continue
+		}
+		inner := &envelope.EnvelopeGrantInner{}
+		if inner.UnmarshalVT(d) != nil {
+			continue
+		}
+		for _, sh := range inner.GetShares() {
+			id, val := g.NewScalar(), g.NewScalar()
+			if id.UnmarshalBinary(sh.GetId()) != nil || val.UnmarshalBinary(sh.GetValue()) != nil || seen[string(mb(id))] {
+				continue
+			}
+			seen[string(mb(id))] = true
+			shares = append(shares, secretsharing.Share{ID: id, Value: val})
+		}
+	}
+	t := uint(b.env.GetThreshold())
+	if uint(len(shares)) <= t {
+		return nil, false
+	}
+	secret := lib.Recover(func() string {
+		sc, err := secretsharing.Recover(t, shares)
+		if err != nil {
+			return ""
+		}
+		return "ok " + hex.EncodeToString(mb(sc))
+	})
+	if !strings.HasPrefix(secret, "ok ") {
+		return nil, false
+	}
+	sb, _ := hex.DecodeString(secret[3:])
+	ct := b.env.GetCiphertext()
+	if len(ct) < 24 {
+		return nil, false
+	}
+	aead, err := chacha20poly1305.NewX(kdfKey(envelope.VerifBuildKeyDerivationContext(b.env.GetEnvelopeId(), b.ctx), sb))
+	if err != nil {
+		return nil, false
+	}
+	p, err := aead.Open(nil, ct[:24], ct[24:], nil)
+	if err != nil || !bytes.Equal(p, b.payload) {
+		return nil, false
+	}
+	return sb, true
+}
+
+func isLowerHex(s string) bool {
+	for _, c := range s {
+		if !(c >= '0' && c <= '9' || c >= 'a' && c <= 'f') {
+			return false
+		}
+	}
+	return true
+}
+
+// idMonitor states the envelope-id clause on one sealed envelope: the configured id is the
+// envelope's id; an empty one is replaced by the lower-case hex of the first 16 bytes of
+// BLAKE3(secret ‖ context), 32 characters. canon is the id as compared with the model: "auto" when
+// the id is the one derived from the bytes the model names (oracle request autoid), else its hex.
+func (e *engine) idMonitor(b *built) (mon, canon string) {
+	id := b.env.GetEnvelopeId()
+	canon = lib.Hex([]byte(id))
+	if b.c.id != "" {
+		if id != b.c.id {
+			mon = fmt.Sprintf("BuildEnvelope did not seal the envelope under the configured envelope id: configured %q, envelope carries %q", b.c.id, id)
+		}
+		return
+	}
+	if len(id) != 32 || !isLowerHex(id) {
+		mon = fmt.Sprintf("auto-generated envelope id is not 32 lower-case hex characters: %q", id)
+	}
+	secret, ok := e.recoverSecret(b)
+	if !ok {
+		return
+	}
+	dw := blake3.Sum256(append(append([]byte(nil), secret...), b.ctx...))
+	want := hex.EncodeToString(dw[:16])
+	if id != want && mon == "" {
+		mon = fmt.Sprintf("auto-generated envelope id %q is not hex(BLAKE3(secret ‖ context)[:16]) = %q", id, want)
+	}
+	if e.m == nil {
+		if id == want {
+			canon = "auto"
+		}
+		return
+	}
+	// what the model says is hashed, and how much of the digest is kept
+	ans := e.m.Query(fmt.Sprintf("envelope.autoid secret=%s ctx=%s", lib.Hex(secret), lib.Hex([]byte(b.ctx))))
+	take, _ := strconv.Atoi(lib.KV(ans, "take"))
+	d := blake3.Sum256(lib.Unhex(lib.KV(ans, "data")))
+	if strings.HasPrefix(ans, "hash ") && take <= 32 && id == hex.EncodeToString(d[:take]) {
+		canon = "auto"
+	}
+	return
+}
+
+type planOut struct {
+	b    *built
+	impl string
+	mon  string
+	key  string
+}
+
+// implPlan runs BuildEnvelope on the configuration and states the C17 clauses and the guards
+// of BuildEnvelope on the outcome, independently of the model.
+func (e *engine) implPlan(c cfg, ctx string, payload []byte, gen string) planOut {
 	b := e.buildReal(c, ctx, payload)
-	impl := ""
-	mon := ""
-	key := "envelope.build:" + gen
+	o := planOut{b: b, key: "envelope.build:" + gen}
 	all := map[int]bool{}
 	for i := 0; i < c.nkeys; i++ {
 		all[i] = true
@@ -485,17 +779,34 @@ func (e *engine) planCase(c cfg, gen string) *built {
 			}
 		}
 	}
-	availAll, _ := specReach(c, all)
-	openable := validIdx && availAll >= int(c.t)+1
-	if b.panicked != "" {
-		impl = b.panicked
-		mon = "BuildEnvelope panics (" + gen + "): " + b.panicked
-	} else if b.err != nil {
-		impl = buildErrClass(b.err)
+	wellFormed := !c.empty && !c.nilCfg && len(c.bad) == 0 && c.nkeys > 0 && len(c.grants) > 0
+	availAll := 0
+	if !c.nilCfg {
+		availAll, _ = specReach(c, all)
+	}
+	openable := wellFormed && validIdx && availAll >= int(c.t)+1
+	switch {
+	case b.panicked != "":
+		o.impl = b.panicked
+		o.mon = "BuildEnvelope panics (" + gen + "): " + b.panicked
+	case b.err != nil:
+		o.impl = buildErrClass(b.err)
 		if openable {
-			mon = "BuildEnvelope rejects a configuration its recipients could open (" + gen + "): " + b.err.Error()
+			o.mon = "BuildEnvelope rejects a configuration its recipients could open (" + gen + "): " + b.err.Error()
 		}
-	} else {
+	case c.empty:
+		o.impl = "ok"
+		o.mon = "BuildEnvelope sealed an empty payload (documented: ErrEmptyPayload)"
+		o.key = "envelope.build:empty-payload-accepted"
+	case c.nilCfg:
+		o.impl = "ok"
+		o.mon = "BuildEnvelope sealed an envelope for a nil configuration (documented: ErrNoGrants)"
+		o.key = "envelope.build:nil-config-accepted"
+	case len(c.bad) > 0:
+		o.impl = "ok"
+		o.mon = "BuildEnvelope sealed an envelope although a recipient key is of an unsupported type (peer.EncryptToPubKey supports Ed25519 only)"
+		o.key = "envelope.build:unsupported-key-accepted"
+	default:
 		usable := 0
 		pl := specPlaced(c)
 		for gi, g := range c.grants {
@@ -503,31 +814,38 @@ func (e *engine) planCase(c cfg, gen string) *built {
 				usable += len(pl[gi])
 			}
 		}
-		total := 0
-		for _, p := range pl {
-			total += len(p)
-		}
-		_ = total
-		tot := int(c.total)
-		if tot == 0 {
-			for _, g := range c.grants {
-				if g.sc == 0 {
-					tot++
-				} else {
-					tot += int(g.sc)
-				}
-			}
-		}
-		impl = fmt.Sprintf("ok t=%d grants=%d total=%d placed=%s usable=%d", b.env.GetThreshold(), len(b.env.GetGrants()), tot, e.observedPlacement(b), usable)
+		idMon, idCanon := e.idMonitor(b)
+		o.impl = fmt.Sprintf("ok t=%d grants=%d total=%d placed=%s usable=%d id=%s", b.env.GetThreshold(), len(b.env.GetGrants()), specTotal(c), e.observedPlacement(b), usable, idCanon)
 		// C17: accepted => all recipients together open it and get the payload
 		got := unlockImpl(ctx, b.env, e.privs(b.keys), payload)
 		if !strings.HasPrefix(got, "opened payload=orig") {
-			mon = fmt.Sprintf("BuildEnvelope accepted a configuration that all recipient keys together cannot open (%s): %s", c.args(), got)
-			key = "envelope.build:accepted-unopenable"
+			o.mon = fmt.Sprintf("BuildEnvelope accepted a configuration that all recipient keys together cannot open (%s): %s", c.args(), got)
+			o.key = "envelope.build:accepted-unopenable"
 		} else if !openable {
-			mon = "harness spec disagrees: opened although the spec says unreachable (" + gen + ")"
+			o.mon = "harness spec disagrees: opened although the spec says unreachable (" + gen + ")"
+		} else if idMon != "" {
+			o.mon = idMon
+			o.key = "envelope.build:envelope-id"
 		}
 	}
+	return o
+}
+
+func (e *engine) randCtx() string {
+	return []string{"ctx A", "", "bifrost/envelope test v1", "π ✓", "a b 3:c"}[e.rng.Intn(5)]
+}
+
+func (e *engine) randPayload(c cfg) []byte {
+	if c.empty {
+		if e.rng.Intn(2) == 0 {
+			return nil
+		}
+		return []byte{}
+	}
+	return e.rng.Bytes(1 + e.rng.Intn(40))
+}
+
+func planBranch(c cfg, model string) string {
 	br := "plan." + outcomeClass(model)
 	if strings.HasPrefix(model, "ok") {
 		for _, p := range specPlaced(c) {
@@ -536,11 +854,102 @@ func (e *engine) planCase(c cfg, gen string) *built {
 			}
 		}
 	}
-	e.rep.Compare(op, model, impl, br, key, mon)
-	return b
+	return br
 }
 
-// offers: subsets of recipients plus unrelated keys, as index lists (>= nkeys → unrelated pool 4,5).
+// planCase: accept/reject + placement + envelope id, model vs BuildEnvelope; C17 monitor.
+func (e *engine) planCase(c cfg, gen string) *built {
+	ctx := e.randCtx()
+	payload := e.randPayload(c)
+	op := "envelope.plan " + c.args()
+	model := e.m.Query(op)
+	o := e.implPlan(c, ctx, payload, gen)
+	e.rep.Compare(op, model, o.impl, planBranch(c, model), o.key, o.mon)
+	if o.b.err == nil && !c.empty && !c.nilCfg && len(c.bad) == 0 {
+		if c.id == "" {
+			e.rep.Branches["id.auto"]++
+		} else {
+			e.rep.Branches["id.configured"]++
+		}
+	}
+	return o.b
+}
+
+// freshCase: the derived id is fresh: two envelopes sealed from the same configuration, context
+// and payload (new secret each time) do not share it; a configured id is shared.
+func (e *engine) freshCase(b *built) {
+	if b.err != nil || b.env == nil {
+		return
+	}
+	b2 := e.buildReal(b.c, b.ctx, b.payload)
+	if b2.err != nil {
+		return
+	}
+	op := "envelope.fresh " + b.c.args()
+	same := b.env.GetEnvelopeId() == b2.env.GetEnvelopeId()
+	want := "same"
+	if b.c.id == "" {
+		want = "different"
+	}
+	impl := "different"
+	if same {
+		impl = "same"
+	}
+	mon := ""
+	if b.c.id == "" && same {
+		mon = fmt.Sprintf("two envelopes sealed separately carry the same auto-generated id %q", b.env.GetEnvelopeId())
+	}
+	if b.c.id != "" && !same {
+		mon = "two envelopes sealed under the same configured id carry different ids"
+	}
+	e.rep.Compare(op, want, impl, "id.fresh", "envelope.build:envelope-id-fresh", mon)
+}
+
+// childPlanCase runs one plan case in a child process (configurations whose share counts sum to
+// 2^32 or more: a code change that stops the uint32 wrap would try to create billions of shares).
+func (e *engine) childPlanCase(c cfg, gen string) {
+	op := "envelope.plan " + c.args()
+	model := e.m.Query(op)
+	cmd := exec.Command(os.Args[0])
+	cmd.Env = append(os.Environ(), "VERIF_ENVELOPE_CHILD=plan", "VERIF_ENVELOPE_CFG="+c.args(), "VERIF_ENVELOPE_GEN="+gen, "GOMEMLIMIT=1GiB")
+	var out bytes.Buffer
+	cmd.Stdout = &out
+	done := make(chan error, 1)
+	if err := cmd.Start(); err != nil {
+		panic(err)
+	}
+	go func() { done <- cmd.Wait() }()
+	impl, mon, key := "", "", "envelope.build:"+gen
+	select {
+	case <-done:
+		lines := strings.Split(strings.TrimRight(out.String(), "\n"), "\n")
+		if len(lines) == 3 && lines[0] != "" {
+			impl, mon, key = lines[0], lines[1], lines[2]
+		} else {
+			impl = "crash"
+		}
+	case <-time.After(20 * time.Second):
+		_ = cmd.Process.Kill()
+		<-done
+		impl = "hang"
+	}
+	if impl == "crash" || impl == "hang" {
+		mon = "BuildEnvelope does not return on a configuration whose share counts sum to 2^32 or more (" + c.args() + "): " + impl
+	}
+	e.rep.Compare(op, model, impl, planBranch(c, model), key, mon)
+	e.rep.Branches["plan.sumwrap"]++
+}
+
+func childPlan() {
+	e := &engine{rng: lib.NewRng(7)}
+	e.setupKeys()
+	c := parseCfgArgs(os.Getenv("VERIF_ENVELOPE_CFG"))
+	o := e.implPlan(c, "ctx A", []byte("payload"), os.Getenv("VERIF_ENVELOPE_GEN"))
+	fmt.Printf("%s\n%s\n%s\n", o.impl, strings.ReplaceAll(o.mon, "\n", " "), o.key)
+}
+
+// offers: subsets of recipients (all of them when n >= 2^nkeys) plus unrelated keys, as index lists
+// (>= nkeys → unrelated pool 4,5; 6 = private key of an unsupported type).
 func (e *engine) offers(c cfg, n int) [][]int {
 	var out [][]int
 	full := 1 << c.nkeys
@@ -560,7 +969,14 @@ func (e *engine) offers(c cfg, n int) [][]int {
 				l = append(l, i)
 			}
 		}
-		switch e.rng.Intn(4) {
+		switch e.rng.Intn(5) {
+		case 4:
+			// a private key of an unsupported type (skipped by matchPrivKeys), first or last
+			if e.rng.Intn(2) == 0 {
+				l = append([]int{6}, l...)
+			} else {
+				l = append(l, 6)
+			}
 		case 0:
 			l = append(l, 4) // unrelated key
 		case 1:
@@ -899,30 +1315,85 @@ func (e *engine) decodeCase(wire []byte, gen string) {
 
 var c16Branches = []string{"plan.ok", "plan.ok.empty-grant", "plan.err.invalidThreshold", "plan.err.invalidKeypairIndex",
 	"run.opened", "run.opened.exact", "run.locked", "wire.opened", "wire.locked",
-	"scalar.ok", "scalar.err", "polyeval", "recover.ok", "recover.err", "recover.panic", "encctx", "kdctx", "encinner", "inner.ok", "inner.err"}
+	"scalar.ok", "scalar.err", "polyeval", "recover.ok", "recover.err", "recover.panic", "encctx", "kdctx", "encinner", "inner.ok", "inner.err",
+	"id.auto", "id.configured", "id.fresh", "offers.all8", "gen.large-share-count", "gen.unsupported-privkey",
+	"plan.err.emptyPayload", "plan.err.noGrants", "plan.err.encrypt"}
 
 func (e *engine) runC16() {
-	e.rep.Rule = "envelope configurations sampled from the stated bound (1-3 keys, 1-4 grants, share counts 0-2, keypair index lists of length 0-3 with duplicates, thresholds 0-3, total-share overrides 0-5, rare out-of-range index) x subsets of the recipients' keys mixed with unrelated / duplicated / shuffled keys; every accepted configuration is built with the real BuildEnvelope and unlocked (a) against the model's prediction from the configuration alone and (b) against the model run on the real envelope bytes with oracle primitives; CIRCL Recover/Evaluate and the scalar codec vs the model's Lagrange over Z/l on honest, duplicated, aliased, zero-id share sets; distinct = distinct op line"
+	e.rep.Rule = "envelope configurations sampled from the stated bound (1-3 keys, 1-4 grants, share counts 0-2, keypair index lists of length 0-3 with duplicates, thresholds 0-3, total-share overrides 0-5, rare out-of-range index; one in three with the EnvelopeId field set; one in eight with share counts 3-64 and thresholds up to their sum; one in 25 with an empty payload, a nil configuration or a recipient key of an unsupported type) x ALL subsets of the recipients' keys mixed with unrelated / duplicated / shuffled keys and a private key of an unsupported type; the envelope id of every sealed envelope against the configured id / hex(BLAKE3(secret ‖ context)[:16]) with the secret recovered from the shares, and its freshness across two builds; every accepted configuration is built with the real BuildEnvelope and unlocked (a) against the model's prediction from the configuration alone and (b) against the model run on the real envelope bytes with oracle primitives; CIRCL Recover/Evaluate and the scalar codec vs the model's Lagrange over Z/l on honest, duplicated, aliased, zero-id share sets; distinct = distinct op line"
 	e.rep.Require(c16Branches...)
 	// direct ties of the model's building blocks first (the report keeps the first 200 disagreements)
 	e.sharingTie(400 * e.a.Scale)
 	e.stringsTie(300 * e.a.Scale)
+	e.guardCases()
 	n := 1200 * e.a.Scale
 	for i := 0; i < n; i++ {
 		c := e.randCfg()
-		b := e.planCase(c, "sampled")
-		if b.err != nil {
+		gen := "sampled"
+		if i%25 == 7 {
+			c, gen = e.structural(c)
+		}
+		b := e.planCase(c, gen)
+		if b.err != nil || b.env == nil {
 			continue
 		}
-		for _, off := range e.offers(c, 4) {
+		for _, g := range c.grants {
+			if g.sc > 2 {
+				e.rep.Branches["gen.large-share-count"]++
+				break
+			}
+		}
+		if i%6 == 0 {
+			e.freshCase(b)
+		}
+		// every subset of the recipients' private keys (2^nkeys <= 8), mixed with unrelated keys
+		offs := e.offers(c, 8)
+		if len(offs) == 8 {
+			e.rep.Branches["offers.all8"]++
+		}
+		for _, off := range offs {
+			for _, k := range off {
+				if k == 6 {
+					e.rep.Branches["gen.unsupported-privkey"]++
+				}
+			}
 			e.runCase(b, off)
 		}
 	}
 }
 
+// guardCases: the guards of BuildEnvelope, each alone on an otherwise openable configuration, and
+// combined with each other and with the threshold / index checks (which error comes first).
+func (e *engine) guardCases() {
+	okc := cfg{nkeys: 2, t: 1, grants: []gcfg{{1, []uint32{0}}, {1, []uint32{1}}}}
+	for _, v := range []struct {
+		f   func(c *cfg)
+		gen string
+	}{
+		{func(c *cfg) { c.empty = true }, "empty-payload"},
+		{func(c *cfg) { c.nilCfg = true }, "nil-config"},
+		{func(c *cfg) { c.bad = []int{0} }, "unsupported-key"},
+		{func(c *cfg) { c.bad = []int{1}; c.grants = c.grants[:1]; c.t = 0 }, "unsupported-key"}, // no grant names the key
+		{func(c *cfg) { c.bad = []int{0, 1} }, "unsupported-key"},
+		{func(c *cfg) { c.empty = true; c.nilCfg = true }, "empty-payload"},
+		{func(c *cfg) { c.empty = true; c.nkeys = 0 }, "empty-payload"},
+		{func(c *cfg) { c.nilCfg = true; c.nkeys = 0 }, "nil-config"},
+		{func(c *cfg) { c.bad = []int{0}; c.t = 5 }, "unsupported-key"},
+		{func(c *cfg) { c.bad = []int{0}; c.grants[1].idx = []uint32{2} }, "unsupported-key"},
+		{func(c *cfg) { c.nilCfg = true; c.id = "x" }, "nil-config"},
+	} {
+		c := okc
+		c.grants = append([]gcfg(nil), okc.grants...)
+		v.f(&c)
+		e.planCase(c, v.gen)
+		e.rep.Branches["gen."+v.gen]++
+	}
+}
+
 func (e *engine) runC17() {
-	e.rep.Rule = "every configuration of the stated bound in a seeded sample (dense on thresholds near the number of usable shares, total-share overrides above and below the sum, grants without keypair indexes, out-of-range indexes) through the real BuildEnvelope: accept/reject and share placement vs the model; every accepted one unlocked with all recipient keys; the two F7 witnesses and threshold 2^32-1 (in a child process) replayed every run; distinct = distinct op line"
-	e.rep.Require("plan.ok", "plan.ok.empty-grant", "plan.err.invalidThreshold", "plan.err.invalidKeypairIndex", "plan.err.noGrants", "plan.err.noKeypairs", "witness", "wrap")
+	e.rep.Rule = "every configuration of the stated bound in a seeded sample (dense on thresholds near the number of usable shares, total-share overrides above and below the sum, grants without keypair indexes, out-of-range indexes, EnvelopeId set in one of three, share counts 3-64 in one of eight, empty payload / nil configuration / recipient key of an unsupported type alone and combined with the other guards, share counts whose uint32 sum wraps in a child process) through the real BuildEnvelope: accept/reject, share placement and envelope id vs the model; every accepted one unlocked with all recipient keys; the two F7 witnesses and threshold 2^32-1 (in a child process) replayed every run; distinct = distinct op line"
+	e.rep.Require("plan.ok", "plan.ok.empty-grant", "plan.err.invalidThreshold", "plan.err.invalidKeypairIndex", "plan.err.noGrants", "plan.err.noKeypairs", "witness", "wrap",
+		"plan.err.emptyPayload", "plan.err.encrypt", "plan.sumwrap", "gen.nil-config", "gen.empty-payload", "gen.unsupported-key", "id.auto", "id.configured", "id.fresh")
 	// witnesses of F7 (accepted-but-unopenable before the fix)
 	ws := []cfg{
 		{nkeys: 2, t: 3, total: 5, grants: []gcfg{{1, []uint32{0}}, {1, []uint32{1}}}},
@@ -938,9 +1409,30 @@ func (e *engine) runC17() {
 	// structural rejections
 	e.planCase(cfg{nkeys: 1, t: 0}, "no-grants")
 	e.planCase(cfg{nkeys: 0, t: 0, grants: []gcfg{{1, nil}}}, "no-keypairs")
+	e.guardCases()
+	// share counts whose uint32 sum wraps (child process): 2^32-1 + 2 = 1 share, 2^31 + 2^31 = none,
+	// 2^32-1 + 1 + 5 = 5 shares, with and without an override
+	for _, c := range []cfg{
+		{nkeys: 2, t: 0, grants: []gcfg{{0xffffffff, []uint32{0}}, {2, []uint32{1}}}},
+		{nkeys: 2, t: 1, grants: []gcfg{{0xffffffff, []uint32{0}}, {2, []uint32{1}}}},
+		{nkeys: 2, t: 0, grants: []gcfg{{0x80000000, []uint32{0}}, {0x80000000, []uint32{1}}}},
+		{nkeys: 2, t: 2, grants: []gcfg{{0xffffffff, []uint32{0}}, {1, []uint32{1}}, {5, []uint32{1, 0}}}},
+		{nkeys: 2, t: 1, total: 3, grants: []gcfg{{0xffffffff, []uint32{0}}, {2, []uint32{1}}}},
+		{nkeys: 1, t: 0, grants: []gcfg{{0xfffffffe, nil}, {3, []uint32{0}}}},
+		{nkeys: 1, t: 1, grants: []gcfg{{0xfffffffe, nil}, {5, []uint32{0}}}, id: "wrap"},
+	} {
+		e.childPlanCase(c, "share-sum-wrap")
+	}
 	n := 1500 * e.a.Scale
 	for i := 0; i < n; i++ {
 		c := e.randCfg()
+		if i%20 == 11 {
+			var gen string
+			c, gen = e.structural(c)
+			e.planCase(c, gen)
+			e.rep.Branches["gen."+gen]++
+			continue
+		}
 		if i%3 == 0 {
 			// dense around the acceptance boundary
 			all := map[int]bool{0: true, 1: true, 2: true}
@@ -951,7 +1443,10 @@ func (e *engine) runC17() {
 			}
 			c.t = uint32(d)
 		}
-		e.planCase(c, "sampled")
+		b := e.planCase(c, "sampled")
+		if i%5 == 0 {
+			e.freshCase(b)
+		}
 	}
 	e.wrapCase()
 }
@@ -1047,7 +1542,130 @@ func (e *engine) grantShares(b *built, env *envelope.Envelope, gi int) []*envelo
 	return inner.Shares
 }
 
-var c18Branches = []string{"encctx", "kdctx", "wire.opened", "wire.locked", "wire.err.contextMismatch", "wire.err.decryptionFailed", "wire.err.recover",
+// hashTie: hashContext against BLAKE3-256 computed directly, on contexts of every length up to
+// 4096 (the model names the bytes that are hashed), and on pairs of contexts that share their
+// first 32 / 64 / 1024 bytes and differ later.
+func (e *engine) hashTie(n int) {
+	for i := 0; i < n; i++ {
+		l := []int{0, 1, 2, 31, 32, 33, 63, 64, 65, 127, 128, 129, 1023, 1024, 1025, 2048, 4095, 4096}[e.rng.Intn(18)]
+		if i%3 == 0 {
+			l = e.rng.Intn(4097)
+		}
+		ctx := string(e.rng.Bytes(l))
+		op := "envelope.ctxhash ctx=" + lib.Hex([]byte(ctx))
+		ans := e.m.Query(op)
+		model := ans
+		if strings.HasPrefix(ans, "hash ") {
+			d := blake3.Sum256(lib.Unhex(lib.KV(ans, "data")))
+			model = "ok " + lib.Hex(d[:])
+		}
+		real := envelope.VerifHashContext(ctx)
+		impl := "ok " + lib.Hex(real)
+		direct := blake3.Sum256([]byte(ctx))
+		mon := ""
+		if !bytes.Equal(real, direct[:]) {
+			mon = fmt.Sprintf("hashContext is not the BLAKE3-256 of the whole context (context of %d bytes)", l)
+		}
+		// a context that agrees with ctx on a prefix and differs later
+		if l > 0 && mon == "" {
+			cut := []int{32, 64, 1024, l - 1, l / 2}[e.rng.Intn(5)]
+			if cut >= l {
+				cut = l - 1
+			}
+			other := []byte(ctx)
+			switch e.rng.Intn(3) {
+			case 0:
+				other[cut+e.rng.Intn(l-cut)] ^= byte(1 + e.rng.Intn(255))
+			case 1:
+				other = other[:cut]
+			case 2:
+				other = append(other[:cut:cut], e.rng.Bytes(1+e.rng.Intn(40))...)
+				if bytes.Equal(other, []byte(ctx)) {
+					other = append(other, 1)
+				}
+			}
+			if bytes.Equal(envelope.VerifHashContext(string(other)), real) {
+				mon = fmt.Sprintf("two contexts of %d and %d bytes that agree on their first %d bytes and differ later have the same context hash", l, len(other), cut)
+			}
+		}
+		e.rep.Compare(op, model, impl, "ctxhash", "envelope.ctxhash", mon)
+	}
+}
+
+// otherContexts: contexts different from ctx — edited at either end, and sharing the first
+// 32 / 64 bytes (padded first when ctx is shorter) while differing later.
+func (e *engine) otherContexts(ctx string) []string {
+	out := []string{ctx + " ", "x" + ctx, strings.ToUpper(ctx) + "!", "other"}
+	b := []byte(ctx)
+	if len(b) > 0 {
+		f := append([]byte(nil), b...)
+		f[len(f)-1] ^= 1
+		out = append(out, string(f), string(b[:len(b)-1]))
+	}
+	for _, cut := range []int{32, 64} {
+		if len(b) > cut {
+			f := append([]byte(nil), b...)
+			f[cut+e.rng.Intn(len(b)-cut)] ^= byte(1 + e.rng.Intn(255))
+			out = append(out, string(f), string(b[:cut]), string(b[:cut])+string(e.rng.Bytes(len(b)-cut+1)))
+		} else {
+			// ctx followed by padding up to the cut and a tail: agrees with ctx on all of ctx
+			pad := strings.Repeat("\x00", cut-len(b))
+			out = append(out, ctx+pad+"tail", ctx+strings.Repeat(" ", cut-len(b)+1))
+		}
+	}
+	return out
+}
+
+// c18Ctx draws the context an envelope is sealed under: the fixed short ones, random bytes of
+// lengths around 32 / 64 and long ones, printable long ones.
+func (e *engine) c18Ctx(i int) string {
+	switch i % 3 {
+	case 0:
+		return []string{"ctx A", "", "bifrost/envelope test v1", "π ✓"}[(i/3)%4]
+	case 1:
+		l := []int{31, 32, 33, 63, 64, 65, 100, 200}[e.rng.Intn(8)]
+		if i == 1 {
+			l = 4096
+		}
+		return string(e.rng.Bytes(l))
+	}
+	b := e.rng.Bytes(33 + e.rng.Intn(60))
+	for j := range b {
+		b[j] = 32 + b[j]%95
+	}
+	return string(b)
+}
+
+// subsetClasses: the subsets of the recipients' keys of a sealed configuration by what they reach
+// of the ORIGINAL envelope: none (no recipient key), below / at / above threshold+1 shares.
+func subsetClasses(c cfg) map[string][][]int {
+	out := map[string][][]int{}
+	for m := 0; m < 1<<c.nkeys; m++ {
+		var l []int
+		off := map[int]bool{}
+		for i := 0; i < c.nkeys; i++ {
+			if m&(1<<i) != 0 {
+				l = append(l, i)
+				off[i] = true
+			}
+		}
+		avail, _ := specReach(c, off)
+		cl := "below"
+		switch {
+		case m == 0:
+			cl = "none"
+		case avail == int(c.t)+1:
+			cl = "at"
+		case avail > int(c.t)+1:
+			cl = "above"
+		}
+		out[cl] = append(out[cl], l)
+	}
+	return out
+}
+
+var c18Branches = []string{"ctxhash", "keys.none", "keys.below", "keys.at", "keys.above", "gen.keyless-grant", "gen.relabel", "gen.ctx-prefix", "gen.ctx-long",
+	"encctx", "kdctx", "wire.opened", "wire.locked", "wire.err.contextMismatch", "wire.err.decryptionFailed", "wire.err.recover",
 	"wire.err.unmarshal", "wire.err.noGrants", "wire.err.noKeypairs", "decode.ok", "decode.err",
 	"gen.alias", "gen.ctx", "gen.threshold-max", "gen.short-grant-ct", "gen.short-ct"}
 
@@ -1055,16 +1673,23 @@ func (e *engine) runC18() {
 	e.rep.Rule = "sealed envelopes (configurations from the C16 bound with decryptable grants) unlocked under other contexts; every top-level field replaced (envelope id, context hash, threshold incl. 2^32-1, ciphertext bit flips / truncations below and above the nonce size / foreign ciphertext, grants dropped / duplicated / swapped / keypair indexes rewritten / ciphertexts flipped and truncated to 0..52 bytes, keypairs dropped / reordered / garbage), grants re-encrypted by an outsider with aliased, duplicated, zero, mis-sized share ids and garbage plaintexts, wire-level bit flips / truncations / random bytes; the model predicts the exact outcome on the bytes; distinct = distinct op line"
 	e.rep.Require(c18Branches...)
 	e.stringsTie(100 * e.a.Scale)
-	n := 60 * e.a.Scale
+	e.hashTie(150 * e.a.Scale)
+	n := 48 * e.a.Scale // sealed envelopes (before: 60 drawn, about 45 of them accepted)
 	for i := 0; i < n; i++ {
 		var c cfg
 		for {
 			c = e.randCfg()
-			ok := true
+			ok := false
 			for _, g := range c.grants {
-				if len(g.idx) == 0 {
-					ok = false
+				if len(g.idx) > 0 {
+					ok = true // at least one grant somebody can decrypt; others may have no key at all
 				}
+				if g.sc > 12 {
+					ok = false
+					break
+				}
+			}
+			for _, g := range c.grants {
 				for _, k := range g.idx {
 					if int(k) >= c.nkeys {
 						ok = false
@@ -1075,27 +1700,80 @@ func (e *engine) runC18() {
 				c.total = 0
 			}
 			if ok {
+				// only configurations sealing accepts (every recipient key together reaches threshold+1 shares)
+				av, _ := specReach(c, map[int]bool{0: true, 1: true, 2: true})
+				ok = av >= int(c.t)+1
+			}
+			if ok {
 				break
 			}
 		}
-		ctx := []string{"ctx A", "", "bifrost/envelope test v1", "π ✓"}[i%4]
+		ctx := e.c18Ctx(i)
+		if len(ctx) > 64 {
+			e.rep.Branches["gen.ctx-long"]++
+		}
 		payload := e.rng.Bytes(1 + e.rng.Intn(40))
 		b := e.buildReal(c, ctx, payload)
 		if b.err != nil {
 			continue
 		}
 		all := b.keys
-		tc := func(env *envelope.Envelope, gen string) {
-			e.wireCase(mustWire(env), ctx, all, payload, gen, "envelope.unlock:"+gen, false, false)
+		// the grants somebody can decrypt (the tampering below addresses their first ciphertext)
+		var keyed []int
+		for gi0, g := range c.grants {
+			if len(g.idx) > 0 {
+				keyed = append(keyed, gi0)
+			} else {
+				e.rep.Branches["gen.keyless-grant"]++
+			}
 		}
+		classes := subsetClasses(c)
+		// tcx: a tampered envelope is unsealed with the full recipient set AND with one subset of the
+		// recipients' keys whose class (none / below / at / above threshold on the original envelope)
+		// rotates. Whatever was done to the envelope, keys that reach fewer than threshold+1 of the
+		// original shares (or no recipient key at all) must not open it: the secret is not
+		// determined by fewer shares, and nothing but the secret yields the payload key.
+		tcx := func(env *envelope.Envelope, gen string, mustNotOpen string) {
+			w := mustWire(env)
+			e.wireCaseX(w, ctx, all, payload, gen, "envelope.unlock:"+gen, false, false, mustNotOpen)
+			order := []string{"none", "below", "at", "above"}
+			for k := 0; k < 4; k++ {
+				cl := order[(e.tcN+k)%4]
+				if len(classes[cl]) == 0 {
+					continue
+				}
+				sub := classes[cl][e.rng.Intn(len(classes[cl]))]
+				if cl == "none" || e.rng.Intn(3) == 0 {
+					sub = append(append([]int(nil), sub...), 4+e.rng.Intn(3)) // plus an unrelated / unsupported key
+				}
+				why := mustNotOpen
+				if why == "" && cl == "none" {
+					why = "no private key of any recipient was offered"
+				}
+				if why == "" && cl == "below" {
+					why = "the offered keys reach fewer than threshold+1 shares of the sealed envelope"
+				}
+				e.wireCaseX(w, ctx, e.offerKeys(sub), payload, gen+"/keys-"+cl, "envelope.unlock:"+gen, false, false, why)
+				e.rep.Branches["keys."+cl]++
+				break
+			}
+			e.tcN++
+		}
+		tc := func(env *envelope.Envelope, gen string) { tcx(env, gen, "") }
 		wire := mustWire(b.env)
 		e.wireCase(wire, ctx, all, payload, "honest", "envelope.unlockwire:honest", false, true)
 		e.decodeCase(wire, "honest")
+		if mon, _ := e.idMonitor(b); mon != "" {
+			e.rep.Compare("envelope.id "+c.args(), "ok", "violated", "id", "envelope.build:envelope-id", mon)
+		}
 
 		// context
-		for _, c2 := range []string{ctx + " ", "x" + ctx, strings.ToUpper(ctx) + "!", "other"} {
+		for _, c2 := range e.otherContexts(ctx) {
 			e.wireCase(wire, c2, all, payload, "other-context", "envelope.unlock:other-context", true, false)
 			e.rep.Branches["gen.ctx"]++
+			if len(c2) >= 32 && len(ctx) >= 1 && strings.HasPrefix(c2, ctx[:min(len(ctx), 32)]) {
+				e.rep.Branches["gen.ctx-prefix"]++
+			}
 		}
 		{
 			// context hash replaced by the hash of another context, unlocked under that context
@@ -1106,15 +1784,28 @@ func (e *engine) runC18() {
 		}
 
 		// envelope id
+		// (re-labelling: the grants are sealed under THIS id, so under any other id nothing opens)
+		relabelled := "the envelope was re-labelled with another id"
 		t := clone(b.env)
 		t.EnvelopeId += "0"
-		tc(t, "id-append")
+		tcx(t, "id-append", relabelled)
 		t = clone(b.env)
 		t.EnvelopeId = ""
-		tc(t, "id-empty")
+		tcx(t, "id-empty", relabelled)
 		t = clone(b.env)
 		t.EnvelopeId = string(e.rng.Bytes(1 + e.rng.Intn(40)))
-		tc(t, "id-random")
+		if t.EnvelopeId != b.env.EnvelopeId {
+			tcx(t, "id-random", relabelled)
+		}
+		t = clone(b.env)
+		t.EnvelopeId = t.EnvelopeId[:len(t.EnvelopeId)-1]
+		tcx(t, "id-truncated", relabelled)
+		t = clone(b.env)
+		t.EnvelopeId = strings.ToUpper(t.EnvelopeId) + ""
+		if t.EnvelopeId != b.env.EnvelopeId {
+			tcx(t, "id-uppercase", relabelled)
+		}
+		e.rep.Branches["gen.relabel"] += 4
 
 		// context hash
 		t = clone(b.env)
@@ -1157,17 +1848,22 @@ func (e *engine) runC18() {
 		{
 			b2 := e.buildReal(c, ctx, e.rng.Bytes(1+e.rng.Intn(40)))
 			if b2.err == nil {
+				if c.id == "" && b2.env.GetEnvelopeId() == b.env.GetEnvelopeId() {
+					e.rep.Compare("envelope.fresh "+c.args(), "different", "same", "id.fresh", "envelope.build:envelope-id-fresh",
+						fmt.Sprintf("two envelopes sealed separately carry the same auto-generated id %q", b.env.GetEnvelopeId()))
+				}
+				foreign := "payload ciphertext and grants come from two different envelopes (two different secrets)"
 				t = clone(b.env)
 				t.Ciphertext = b2.env.Ciphertext
-				tc(t, "ct-foreign")
+				tcx(t, "ct-foreign", foreign)
 				// whole grants of another envelope for the same recipients
 				t = clone(b.env)
 				t.Grants = b2.env.CloneVT().Grants
-				tc(t, "grants-foreign")
+				tcx(t, "grants-foreign", foreign)
 				t = clone(b2.env)
 				t.Ciphertext = b.env.Ciphertext
 				t.EnvelopeId = b.env.EnvelopeId
-				tc(t, "grants-foreign-same-id")
+				tcx(t, "grants-foreign-same-id", foreign)
 			}
 		}
 
@@ -1196,7 +1892,8 @@ func (e *engine) runC18() {
 		t = clone(b.env)
 		t.Grants = nil
 		tc(t, "grants-none")
-		gi := e.rng.Intn(ng)
+		ki := e.rng.Intn(len(keyed))
+		gi := keyed[ki]
 		t = clone(b.env)
 		t.Grants[gi].KeypairIndexes[0] = uint32((int(t.Grants[gi].KeypairIndexes[0]) + 1) % c.nkeys)
 		tc(t, "kpidx-other")
@@ -1209,6 +1906,21 @@ func (e *engine) runC18() {
 		t = clone(b.env)
 		t.Grants[gi].KeypairIndexes = nil
 		tc(t, "kpidx-none")
+		if len(keyed) < ng {
+			// a grant nobody can decrypt is given a keypair index, without and with a made-up ciphertext
+			for g0 := range c.grants {
+				if len(c.grants[g0].idx) == 0 {
+					t = clone(b.env)
+					t.Grants[g0].KeypairIndexes = []uint32{uint32(e.rng.Intn(c.nkeys))}
+					tc(t, "keyless-grant-index")
+					t = clone(b.env)
+					t.Grants[g0].KeypairIndexes = []uint32{uint32(e.rng.Intn(c.nkeys))}
+					t.Grants[g0].Ciphertexts = [][]byte{e.rng.Bytes(40 + e.rng.Intn(60))}
+					tc(t, "keyless-grant-ciphertext")
+					break
+				}
+			}
+		}
 		t = clone(b.env)
 		t.Grants[gi].Ciphertexts = append(t.Grants[gi].Ciphertexts, e.rng.Bytes(60))
 		tc(t, "grant-ct-extra")
@@ -1267,7 +1979,7 @@ func (e *engine) runC18() {
 				return t
 			}
 			// aliased id placed in ANOTHER grant (or appended to this one): the F21 shape
-			other := (gi + 1) % ng
+			other := keyed[(ki+1)%len(keyed)]
 			for rep := 0; rep < 3; rep++ {
 				t = clone(b.env)
 				al := &envelope.EnvelopeShare{Id: e.alias(shares[0].Id), Value: shares[0].Value}
@@ -1342,16 +2054,18 @@ func (e *engine) runC18() {
 }
 
 func main() {
-	if os.Getenv("VERIF_ENVELOPE_CHILD") == "wrap" {
+	switch os.Getenv("VERIF_ENVELOPE_CHILD") {
+	case "wrap":
 		childWrap()
+		return
+	case "plan":
+		childPlan()
 		return
 	}
 	a := lib.ParseArgs()
 	e := &engine{a: a, rng: lib.NewRng(a.Seed), m: lib.NewModel(a.Driver)}
 	e.rep = lib.NewReport("envelope", a)
-	for i := 0; i < 6; i++ {
-		e.keys = append(e.keys, e.newKey())
-	}
+	e.setupKeys()
 	switch a.Prop {
 	case "C16":
 		e.runC16()
